@@ -40,6 +40,15 @@ def round7(x: float) -> float:
     return float(d.quantize(q, rounding=ROUND_HALF_EVEN))
 
 
+ROUNDED_FIELDS = {
+    ("ClimateInfo", "visual_min_temperature"), ("ClimateInfo", "visual_max_temperature"), ("ClimateInfo", "visual_target_temperature_step"),
+    ("ClimateInfo", "visual_current_temperature_step"), ("ClimateState", "current_temperature"), ("ClimateState", "target_temperature"),
+    ("ClimateState", "target_temperature_low"), ("ClimateState", "target_temperature_high"), ("CoverState", "position"), ("CoverState", "tilt"),
+    ("LightInfo", "min_mireds"), ("LightInfo", "max_mireds"), ("LightState", "brightness"), ("LightState", "color_brightness"), ("LightState", "red"),
+    ("LightState", "green"), ("LightState", "blue"), ("LightState", "white"), ("LightState", "color_temperature"), ("LightState", "cold_white"),
+    ("LightState", "warm_white"), ("MediaPlayerEntityState", "volume"), ("NumberInfo", "min_value"), ("NumberInfo", "max_value"), ("NumberInfo", "step"),
+    ("NumberState", "state"), ("ValveState", "position"),
+}
 FLOATS = {"zero": 0.0, "negzero": -0.0, "tenth": 0.1, "third": 1 / 3, "big_int": 12345678.0, "tie": 1.00000025, "pow10": 1000.0,
           "subnormal": 1e-40, "huge": 3.0e38, "inf": float("inf"), "neginf": float("-inf"), "nan": float("nan")}
 INT_MAX = {"int32": 2**31 - 1, "sint32": 2**31 - 1, "sfixed32": 2**31 - 1, "uint32": 2**32 - 1, "fixed32": 2**32 - 1, "int64": 2**63 - 1, "uint64": 2**64 - 1, "fixed64": 2**64 - 1}
@@ -104,6 +113,12 @@ def run(ctx):
     if not convs:
         raise TLCFailure("no conversion cases generated")
     ctx.exhaustive = True
+    # conversion must not depend on which model classes happen to have been used before: the base classes first
+    for base in ("APIModelBase", "EntityInfo", "EntityState"):
+        try:
+            getattr(model, base)()
+        except Exception:  # noqa: BLE001 (not constructible without arguments in this version)
+            pass
     for c in convs.values():
         mcls = getattr(model, c["model"])
         pcls = getattr(api_pb2, c["msg"])
@@ -166,9 +181,11 @@ def run(ctx):
                     ok = (list(got) if kind.endswith("_list") else got) == exp
             elif e == "float":
                 w = float(wire)
-                designated = any(fl.name == fld and fl.metadata.get("converter") is not None for fl in dataclasses.fields(mcls))
-                ok = same(got, round7(w)) if designated else (same(got, w) or same(got, round7(w)))
-                exp = round7(w)
+                # the designated fields are a fixed list (the statement's "designated fields"): exactly these are presented
+                # rounded to 7 significant digits, every other float field carries the single-precision wire value as it is
+                designated = (c["model"], fld) in ROUNDED_FIELDS
+                ok = same(got, round7(w)) if designated else same(got, w)
+                exp = round7(w) if designated else w
             elif e == "enum_member":
                 exp = var
                 ok = isinstance(got, enum.IntEnum) and int(got) == var
